@@ -70,10 +70,12 @@ class C06(Prop):
         from p_C04 import C04
         sys = C04.sysnp(case)
         B = np.asarray(case["b"], dtype=float)
-        core.drain_hooks()
         kw = {"error": case["error"]}
         if case["nsp"]:
             kw["n"] = case["nsp"]
+        # warm-up: the same query on a sibling system (other baseline) must leave no trace
+        gs.warm(lambda: gs.make_estimator(gs.sibling(sys)).range_of_solutions(B[None], **dict(kw, error="ignore")))
+        core.drain_hooks()
         if case.get("extra"):
             # several targets in one call; ours comes first, the others are in-gamut decoys
             Bm = np.vstack([B[None], np.asarray(case["extra"], dtype=float)])
